@@ -606,7 +606,49 @@ def _trait_limits(ctx, mod, cap):
                    'subtracted from that trait, under `trait in free` only')
 
 
+def _assignment_write_scope(ctx):
+    """C19.3: a reservation counts with what the last accepted request left
+    in the store.  The assignment operations share the record of the
+    reservation (cell allocation) and write only their own attribute back:
+    the object they hand to the admin update is a display with the key
+    ``assignments`` alone.  Writing back the whole record they read replaces
+    cpu / memory / disk by the values read before a concurrently accepted
+    resize - the accepted reservation is lost while the requests checked
+    against it stand."""
+    mod = ctx.index.module(API)
+    sites = 0
+
+    def visit(node, owner):
+        nonlocal sites
+        for child in ast.iter_child_nodes(node):
+            inner = child if isinstance(
+                child, (ast.FunctionDef, ast.AsyncFunctionDef)) else owner
+            if isinstance(child, ast.Call) and isinstance(
+                    child.func, ast.Attribute) and \
+                    child.func.attr == 'update' and len(child.args) == 2 \
+                    and 'cell_alloc' in N.txt(child.func.value) and \
+                    owner is not None and \
+                    'assignments' in ast.unparse(owner) and \
+                    'pattern' in ast.unparse(owner):
+                sites += 1
+                val = child.args[1]
+                ok = isinstance(val, ast.Dict) and val.keys and all(
+                    isinstance(k, ast.Constant) and k.value == 'assignments'
+                    for k in val.keys)
+                ctx.ob('C19.3', mod.name, child, ok,
+                       'an assignment operation writes only the assignments '
+                       'attribute of the shared record (found %s)' %
+                       N.txt(val)[:50],
+                       construct='assignment write scope in %s' % owner.name,
+                       file=mod.rel)
+            visit(child, inner)
+    visit(mod.tree, None)
+    ctx.require(sites >= 2, 'admin updates of the assignment operations '
+                '(found %d)' % sites, rule='C19.3')
+
+
 def check(ctx):
+    _assignment_write_scope(ctx)
     mod = ctx.index.module(API)
     chk, dims = _dimensions(ctx, mod)
     _rejection(ctx, chk, dims)
